@@ -234,3 +234,115 @@ theorem nsScan_sound (text : List Char) : ∀ (st : NsState) (acc cs : List Name
         · cases h
 
 end Emboss.Names
+
+/-! ## the clash relation, declaratively -/
+namespace Emboss.Names
+
+theorem clashes_eq_nil_iff (ds : List Decl) :
+    clashes ds = [] ↔ ds.Pairwise (fun a b => compatible a b = true) := by
+  induction ds with
+  | nil => simp [clashes]
+  | cons d ds ih =>
+    simp only [clashes, List.append_eq_nil_iff, List.map_eq_nil_iff, List.filter_eq_nil_iff,
+      List.pairwise_cons, ih, Bool.not_eq_true', Bool.not_eq_false]
+
+theorem clean_iff (ds : List Decl) :
+    clean ds = true ↔ ds.Pairwise (fun a b => compatible a b = true) := by
+  unfold clean
+  rw [List.isEmpty_iff]
+  exact clashes_eq_nil_iff ds
+
+/-- Two incompatible declarations anywhere in a scope make it ill-formed. -/
+theorem not_clean_of_split (as bs : List Decl) (a b : Decl) (ha : a ∈ as) (hb : b ∈ bs)
+    (h : compatible a b = false) : clean (as ++ bs) = false := by
+  cases hc : clean (as ++ bs) with
+  | false => rfl
+  | true =>
+    have hp := (clean_iff _).mp hc
+    rw [List.pairwise_append] at hp
+    have := hp.2.2 a ha b hb
+    rw [h] at this
+    cases this
+
+theorem incompatible_of_ident (a b : Decl) (hi : a.ident = b.ident) (hg : a.group = none) :
+    compatible a b = false := by
+  simp [compatible, hi, hg]
+
+end Emboss.Names
+
+namespace Emboss.Names
+
+theorem pairwise_mem_ne {α : Type} (R : α → α → Prop) (hs : ∀ a b, R a b → R b a) (l : List α)
+    (h : l.Pairwise R) (a b : α) (ha : a ∈ l) (hb : b ∈ l) (hne : a ≠ b) : R a b := by
+  induction l with
+  | nil => cases ha
+  | cons x xs ih =>
+    rw [List.pairwise_cons] at h
+    rcases List.mem_cons.mp ha with rfl | ha' <;> rcases List.mem_cons.mp hb with rfl | hb'
+    · exact absurd rfl hne
+    · exact h.1 b hb'
+    · exact hs _ _ (h.1 a ha')
+    · exact ih h.2 ha' hb'
+
+theorem compatible_symm (a b : Decl) (h : compatible a b = true) : compatible b a = true := by
+  unfold compatible at h ⊢
+  cases ha : a.group <;> cases hb : b.group <;>
+    simp only [ha, hb, Bool.or_false, Bool.or_eq_true, bne_iff_ne, ne_eq, beq_iff_eq] at h ⊢
+  · exact fun e => h e.symm
+  · exact fun e => h e.symm
+  · exact fun e => h e.symm
+  · rcases h with h | h
+    · exact Or.inl (fun e => h e.symm)
+    · exact Or.inr h.symm
+
+/-- Two different incompatible declarations of one scope make it ill-formed. -/
+theorem not_clean_of_mem (ds : List Decl) (a b : Decl) (ha : a ∈ ds) (hb : b ∈ ds) (hne : a ≠ b)
+    (h : compatible a b = false) : clean ds = false := by
+  cases hc : clean ds with
+  | false => rfl
+  | true =>
+    have hp := (clean_iff _).mp hc
+    have := pairwise_mem_ne _ compatible_symm ds hp a b ha hb hne
+    rw [h] at this
+    cases this
+
+def scopeFixed (st : Struct) : List Decl :=
+  (fixedMembers st).map (fun n => { ident := n, what := "fixed member" })
+def scopeParams (st : Struct) : List Decl :=
+  st.params.flatMap (fun p =>
+    [{ ident := p, what := "parameter accessor" }, { ident := s "has_" ++ p, what := "parameter has_" },
+     { ident := p ++ s "_", what := "parameter member" }])
+def scopeFields (st : Struct) : List Decl :=
+  st.fields.flatMap (fun f =>
+    match cppFieldName f.name with
+    | none => []
+    | some c =>
+      [{ ident := c, what := "field accessor" }, { ident := s "has_" ++ c, what := "field has_" }] ++
+      (if f.ownView then
+        match virtualViewName f.name with
+        | some v => [{ ident := v, what := "virtual view class" }]
+        | none => []
+       else []))
+def scopeEnums (st : Struct) : List Decl :=
+  st.nestedEnums.map (fun e => { ident := e, what := "using <enum>" })
+
+theorem classScope_eq (st : Struct) :
+    classScope st = scopeFixed st ++ scopeParams st ++ scopeFields st ++ scopeEnums st := rfl
+
+theorem cppFieldName_plain (n : Name) (h : isDollar n = false) : cppFieldName n = some n := by
+  unfold cppFieldName
+  split
+  · simp [isDollar] at h
+  · rfl
+
+theorem accessor_mem (st : Struct) (f : Field) (hf : f ∈ st.fields) (hd : isDollar f.name = false) :
+    ({ ident := f.name, what := "field accessor" } : Decl) ∈ scopeFields st ∧
+    ({ ident := s "has_" ++ f.name, what := "field has_" } : Decl) ∈ scopeFields st := by
+  unfold scopeFields
+  constructor
+  · refine List.mem_flatMap.mpr ⟨f, hf, ?_⟩
+    simp [cppFieldName_plain _ hd]
+  · refine List.mem_flatMap.mpr ⟨f, hf, ?_⟩
+    simp [cppFieldName_plain _ hd]
+
+end Emboss.Names
